@@ -269,6 +269,10 @@ func (C03) Generate(rng *rand.Rand, tier string, runIdx uint64) simkit.Plan {
 			Checks: []Check{{ID: "serfHealth", Status: "passing"}}})
 	}
 	for len(p.Steps) < n {
+		if simkit.Chance(rng, 4) {
+			p.Steps = append(p.Steps, g.Macro()...)
+			continue
+		}
 		s := g.Next()
 		if s.Op == "txn" {
 			// C03 keeps transactions KV-only (mixed transactions are C04/C05's subject)
